@@ -164,6 +164,16 @@ CHECKS = {
              note=BASE_NOTE + "Instances are driven from one thread (operation-granularity interleaving). The premise 'keys sanitize differently' is C14. The fsync-schedule 'first instance wins' "
              "global (durability, C10) is not modelled. A candidate repair (tracker keyed by file + block id) touches four files and was not judged small.",
              tech="Lean 4 proof (frame lemmas over every operation for the other instance's state; counterexample by kernel evaluation) + two-instance differential correspondence + per-instance oracle", ref="§6 C13"),
+ "C10": dict(text="Partial. The statement is about I/O event traces and what a power loss keeps of them (Model/Durable.lean). Theorems, for traces of any length and every power-loss point: "
+             "C10_acked_appends_durable (a trace that follows the append discipline - entry write synced by O_SYNC or a later sync of that file before the acknowledgement, file creation followed by a "
+             "directory sync - keeps the write of every acknowledged entry durable at every later point), C10_acked_consumption_durable, C10_durable_monotone, C10_checker_sound (the executable "
+             "checkers the driver runs are sound for the two disciplines). FALSE for the consumption clause: C10_counterexample_renameWithoutDirSync = the engine's index persist (open finding "
+             "indexRenameNotDurable, seen in every recorded trace with a consuming read). Tie: hook H1 records every storage write (with the O_SYNC status of its descriptor), io_uring write, file sync, "
+             "file creation, directory sync, index sync/rename of the real engine under SyncEach (~170 programs per quick run, both backends, rotation, roll-over, a NoFsync instance constructed "
+             "first in 40% of them); the driver decides the disciplines on each recorded trace.",
+             note=BASE_NOTE + "What a real disk keeps is assumed (the statement's own power-loss model), not observed; no post-power-loss directory is reconstructed and reopened. Completeness of the "
+             "trace depends on the instrumented sites. The write path is not modelled here: the tie is a property of recorded traces, decided by the model's executable definitions.",
+             tech="Lean 4 proof (durability of disciplined event traces at every power-loss point; sound executable checker) + recorded-trace checking on the real engine", ref="§6 C10"),
 }
 NOT_APPLICABLE = {
  "C19": "statement about the vendored openraft core + QUIC transport + tokio runtime, none of which can be built or run offline here (tokio, quinn, rustls, futures absent from the registry); a free-standing Raft proof would be tied to nothing (DESIGN.md §6 C19)",
